@@ -873,6 +873,16 @@ func (pc *PeerConnection) updateConnectionState(
 		connectionState = PeerConnectionStateConnected
 	}
 
+	// The state above was computed from a snapshot. close() sets isClosed under pc.mu before it stores
+	// "closed", so re-reading isClosed under the same lock, and comparing, storing and notifying
+	// without releasing it, keeps a state computed before Close from being stored or reported after
+	// "closed".
+	pc.mu.Lock()
+	defer pc.mu.Unlock()
+	if pc.isClosed.Load() {
+		connectionState = PeerConnectionStateClosed
+	}
+
 	if pc.connectionState.Load() == connectionState {
 		return
 	}
